@@ -118,6 +118,10 @@ pub fn solve(a: &VecMatrix<i64>, b: &VecMatrix<i64>)
 {
     if let Some(c) = a.to::<PrimeResidueClass<PRIME>>().inverse() {
         let nr_steps = number_of_p_adic_steps_needed(a, b, PRIME);
+        #[cfg(feature = "verif")]
+        crate::verif_hooks::add("modsolve.steps", nr_steps);
+        #[cfg(feature = "verif")]
+        crate::verif_hooks::hit("modsolve.calls");
         let prime = BigInt::from(PRIME);
 
         let nrows = b.nr_rows();
